@@ -133,3 +133,19 @@ package gen
 //@   ensures [sound] forall i int, c PID :: 0 <= i && i < len(result) && result[i] == c ==> (rel(tm, relationKey{c, target, false}) || rel(tm, relationKey{c, target, true}))
 //@   ensures [complete] forall c PID :: rel(tm, relationKey{c, target, false}) || rel(tm, relationKey{c, target, true}) ==> !(forall i int :: 0 <= i && i < len(result) ==> result[i] != c)
 //@   ensures [once] forall i, j int :: 0 <= i && i < j && j < len(result) ==> result[i] != result[j]
+
+//@ func (tm *defaultTargetManager) GetTargetsForConsumer
+//@   props C04
+//@   mode int
+//@   requires [wf] tmWF(tm)
+//@   loop 1 invariant [lists_apart] ptr(links) == nil || ptr(links) != ptr(monitors)
+//@   loop 1 invariant [links_seen] forall i int :: 0 <= i && i < len(links) ==> seen(1, relationKey{consumer, links[i], false})
+//@   loop 1 invariant [links_cover] forall t any :: seen(1, relationKey{consumer, t, false}) ==> !(forall i int :: 0 <= i && i < len(links) ==> links[i] != t)
+//@   loop 1 invariant [mons_seen] forall i int :: 0 <= i && i < len(monitors) ==> seen(1, relationKey{consumer, monitors[i], true})
+//@   loop 1 invariant [mons_cover] forall t any :: seen(1, relationKey{consumer, t, true}) ==> !(forall i int :: 0 <= i && i < len(monitors) ==> monitors[i] != t)
+//@   loop 1 invariant [seen_sub] forall k relationKey :: seen(1, k) ==> has(tm.relations, k)
+//@   ensures [pure] forall k relationKey :: rel(tm, k) == old(rel(tm, k))
+//@   ensures [links_sound] forall i int, t any :: 0 <= i && i < len(result.0) && result.0[i] == t ==> rel(tm, relationKey{consumer, t, false})
+//@   ensures [links_complete] forall t any :: rel(tm, relationKey{consumer, t, false}) ==> !(forall i int :: 0 <= i && i < len(result.0) ==> result.0[i] != t)
+//@   ensures [monitors_sound] forall i int, t any :: 0 <= i && i < len(result.1) && result.1[i] == t ==> rel(tm, relationKey{consumer, t, true})
+//@   ensures [monitors_complete] forall t any :: rel(tm, relationKey{consumer, t, true}) ==> !(forall i int :: 0 <= i && i < len(result.1) ==> result.1[i] != t)
